@@ -264,3 +264,6 @@ REGISTRY["C03"]["partial_clauses"] = ["float rounding", "halo == explicit zero-p
     "(halo_is_zero_padding, registered), the equality of the two calls' fields is decided by the oracle"]
 REGISTRY["C11"]["theorems"] += REPR
 REGISTRY["C06"]["theorems"] += REPR
+REGISTRY["C19"]["theorems"] += T("Proofs.C19", "BLDFM.C19", ["z0_window_circular", "z0_window_rotation"]) + T("Proofs.Bridge.Tables", "BLDFM.Bridge", ["estimateZ0_steps_table"], "bridge")
+REGISTRY["C19"]["kernel_groups"].append("Tables")
+REGISTRY["C19"]["partial_clauses"][2] = "z0 smoothing: membership in the circular +-h window and its invariance under whole-degree rotations are theorems (z0_window_circular, z0_window_rotation); that the median of the selected observations is then invariant is immediate and checked by the oracle; non-integer rotations move observations across the 1-degree bins and are outside the clause"
